@@ -357,7 +357,7 @@ class Check:
 
     def proof_obligations(self, ok, log, info, coq_ok=True, coq_log=""):
         self.cov["obligations"] = len(info["theorems"])
-        self.cov["discharged"] = len(info["theorems"]) if ok else 0
+        self.cov["discharged"] = len(info["theorems"]) if (ok and coq_ok) else 0
         self.cov["checker_cmd"] = "make -C coq (full .vo build) && coqc -Q coq GP coq/Properties/%s.v" % self.pid
         self.notes["theorems"] = info["theorems"]
         if info.get("coqchk"):
